@@ -19,7 +19,7 @@ Definition sl (a b : option Z) (st : Z) (n : nat) (l : seq nat) : bool := slice_
 """
 
 LAYOUTS = ['C', 'C', 'F', 'T', 'C']
-SHAPES = [(4,), (1,), (3, 2), (2, 3), (4, 1), (2, 3, 2), (1, 2, 3), (3, 1, 2), (5,), (2, 2)]
+SHAPES = [(4,), (1,), (3, 2), (2, 3), (4, 1), (2, 3, 2), (1, 2, 3), (3, 1, 2), (5,), (2, 2), (2, 3, 4, 2), (2, 2, 2, 2), (2, 1, 3, 2, 2)]
 
 
 def offset_utpm(algopy, D, P, shp):
@@ -119,7 +119,7 @@ def main(tier, seed):
     algopy = lib.import_algopy()
     rep = Report(PID, tier, seed)
     rep.rule = ('index expressions from a grammar (ints incl. negative and numpy.int64, slices with None/out-of-range bounds and steps +-1..3, '
-                'Ellipsis, newaxis, tuples) on 10 shapes of rank 1..3; setitem with scalar / ndarray / UTPM right-hand sides; reshape, transpose, '
+                'Ellipsis, newaxis, tuples) on 13 shapes of rank 1..5; setitem with scalar / ndarray / UTPM right-hand sides; reshape, transpose, '
                 'sum over every axis, tile, diag, triu/tril, trace, symvec/vecsym, negative, conjugate/real/imag, fft/ifft, zeros/ones(-like); '
                 'non-trivial = the index map is not the identity resp. the op changes the layout; distinct by (op, shape, arguments)')
     rep.assumptions = ['numpy.shares_memory / write-through are runtime facts: NumPy applied to one coefficient slice is the reference',
